@@ -200,7 +200,15 @@ def judgeCols (env : Env) (s s' : State) (op : Op) : String :=
     | some (r, t') => (match r with | .unspecified => "-" | _ => showR op r ++ " ## " ++ absDump t')
     | none => "-"
   let inv := match invViolation s' with | none => "inv-ok" | some c => "inv-broken:" ++ c
-  spec ++ "\t" ++ classOf s env op ++ "\t" ++ inv
+  -- a copy whose destination lies at/below its source or above it reads entries the same call
+  -- creates: its effect depends on the hash iteration order (no comparison possible)
+  let overlap : Bool := match op with
+    | .copy a b | .copyB a b _ =>
+      (match absM env a s, absM env b s with
+       | (.ok ka, _), (.ok kb, _) => ka.isPrefixOf kb || kb.isPrefixOf ka
+       | _, _ => false)
+    | _ => false
+  spec ++ "\t" ++ (if overlap then "copy_overlap" else classOf s env op) ++ "\t" ++ inv
 
 def memfsOp (env : Env) (fn : String) (args : List String) (s : State) : Option (Op × String × State) :=
   match parseOp fn args with
